@@ -168,7 +168,7 @@ def r_configs(tier):
         return dict(n=n, loops=loops, cache=cache, dur0=dur0, pad0=pad0, profile=profile)
 
     if tier == "quick":
-        out += [cf(2, 2, True, 100, "E0", "tiny"), cf(2, -1, 2, "DYN", "E0", "dur"), cf(2, 3, 3, 100, "Arel", "args"),
+        out += [cf(2, 2, True, 100, "E0", "tiny"), cf(2, -1, 2, "DYN", "E0", "dur"), cf(2, 2, 3, 100, "Arel", "args"),
                 cf(2, 2, True, 100, "E0", "size"), cf(2, 2, 2, 100, "E0", "pad"),
                 cf(2, 2, 1, 100, "E0", "small"),                        # disabled by cache < n
                 cf(3, -1, 3, 100, "E0", "one"),
